@@ -1,4 +1,5 @@
 import Anysystem.Props.C17
+import Anysystem.Proofs.SimLogInv
 #print axioms Anysystem.Sim.send_logged_once
 #print axioms Anysystem.Sim.send_same_node
 #print axioms Anysystem.Sim.send_cut_dropped
@@ -9,3 +10,11 @@ import Anysystem.Props.C17
 #print axioms Anysystem.Sim.handleActions_send_counts
 #print axioms Anysystem.Sim.onMessage_counts
 #print axioms Anysystem.Sim.handleActions_counts
+#print axioms Anysystem.Sim.LogInv.addProcess
+#print axioms Anysystem.Sim.LogInv.sendLocal
+#print axioms Anysystem.Sim.LogInv.step
+#print axioms Anysystem.Sim.LogInv.steps
+#print axioms Anysystem.Sim.LogInv.readLocal
+#print axioms Anysystem.Sim.LogInv.crashNode
+#print axioms Anysystem.Sim.LogInv.recoverNode
+#print axioms Anysystem.Sim.readLocal_returns_outbox
